@@ -46,7 +46,7 @@ manifest = {
         "name": "sioverif",
         "path": "/verif/cmd/sioverif",
         "serves_properties": sorted(CLAIMED),
-        "kind_free_text": "repository-specific static analyser over go/packages + go/ssa (x/tools v0.29.0): term extraction, dominator/guard queries, path-pruned reachability, must-hold locksets, call-site census, AST pattern rules; no execution of /repo code",
+        "kind_free_text": "repository-specific static analyser over go/packages + go/ssa (x/tools v0.29.0): term extraction, dominator/guard queries, path-pruned reachability, must-/may-hold locksets and lock-order graph over the VTA call graph, call-site census, reflect-setter taint, zone (difference-bound) abstract interpretation for bounds proofs, constant folding of SSA conditions with CFG path enumeration, AST pattern rules; no execution of /repo code",
     }],
     "checks": checks,
     "not_applicable": [{"property_id": p, "reason": NA[p]} for p in sorted(NA)],
